@@ -103,6 +103,40 @@ fn run_op(dir: &Path, kind: &str, op: &Value) -> Value {
                 Err(e) => json!({"ok": false, "err": e.to_string()}),
             }
         }
+        "reversion" => {
+            // rewrite an artifact as a compiler with other version constants would have written it: versions changed in
+            // the unit (and, for a core, in its embedded interface) and the interface hash recomputed over them
+            let p = dir.join(op["file"].as_str().unwrap());
+            let text = match std::fs::read_to_string(&p) {
+                Ok(t) => t,
+                Err(e) => return json!({"ok": false, "err": e.to_string()}),
+            };
+            let fv = op["format_version"].as_u64().unwrap() as u32;
+            let abi = op["compiler_abi"].as_u64().unwrap() as u32;
+            if p.extension().is_some_and(|e| e == "core") {
+                let mut u: compiler::artifact::CoreUnit = match serde_json::from_str(&text) {
+                    Ok(u) => u,
+                    Err(e) => return json!({"ok": false, "err": e.to_string()}),
+                };
+                u.format_version = fv;
+                u.compiler_abi = abi;
+                u.interface.format_version = fv;
+                u.interface.compiler_abi = abi;
+                u.interface.interface_hash = u.interface.compute_hash();
+                std::fs::write(&p, serde_json::to_string_pretty(&u).unwrap()).unwrap();
+                json!({"ok": true, "hash": u.interface.interface_hash})
+            } else {
+                let mut u: compiler::artifact::InterfaceUnit = match serde_json::from_str(&text) {
+                    Ok(u) => u,
+                    Err(e) => return json!({"ok": false, "err": e.to_string()}),
+                };
+                u.format_version = fv;
+                u.compiler_abi = abi;
+                u.interface_hash = u.compute_hash();
+                std::fs::write(&p, serde_json::to_string_pretty(&u).unwrap()).unwrap();
+                json!({"ok": true, "hash": u.interface_hash})
+            }
+        }
         "patch" => {
             let p = dir.join(op["file"].as_str().unwrap());
             let text = match std::fs::read_to_string(&p) {
